@@ -353,7 +353,8 @@ def r5_one_process_per_layer(ctx, rep, R='C03.R5'):
         st = gr.node(starts[0])
         recv = [dotted(c.func.value) for c in calls_in(st.ast) if isinstance(c.func, ast.Attribute)
                 and c.func.attr == 'start'][0]
-        src = [v for v in local_assignments(fr.node).get(recv, []) if isinstance(v, ast.AST)]
+        from .common import reaching_defs
+        src = reaching_defs(gr, starts[0], recv)
         oks = len(src) == 1 and isinstance(src[0], ast.Call) and \
             isinstance(src[0].func, ast.Attribute) and src[0].func.attr == 'pop' and \
             dotted(src[0].func.value) == ready
